@@ -22,6 +22,9 @@ var (
 	// declaration set "num" (digit-named flag, folds that read like numbers)
 	leavesNum = []string{"OPTIONS", "--ipv4", "-i", "-n", "--nan", "--nan-ok", "-f", "-inf", "-p", "X"}
 	tokNum    = []string{"x", "--", "-4", "--ipv4", "-4=true", "-6", "-46", "-i", "-n", "--nan", "--nan-ok", "-f", "-inf", "-nf", "-i4", "-4n", "-p5", "-p", "5", "-p=.5", "-4p5"}
+	// declaration set "val2": two valued options, command lines long enough for two `-x VALUE` pairs and a positional
+	leavesVal2 = []string{"-p", "-o", "-a", "X"}
+	tokVal2    = []string{"x", "v", "-p", "-o", "-a"}
 	leavesAlt = []string{"-a", "--aa", "-m", "-nm", "-an", "-o", "--output", "OPTIONS", "X"}
 	tokAlt    = []string{"x", "--", "-a", "--aa", "-n", "-m", "-mn", "-na", "-ov", "--output=v", "--out", "-amo"}
 
@@ -69,6 +72,7 @@ func langTiers(c *Ctx) []langTier {
 			{decl: "alt", name: "alt-s4-l2", leaves: leavesAlt, maxSize: 4, toks: tokAlt, maxLen: 2},
 			{decl: "num", name: "num-s3-l3", leaves: leavesNum, maxSize: 3, toks: tokNum, maxLen: 3},
 			{decl: "sub", name: "sub-s3-l3", leaves: leavesFull, maxSize: 3, toks: tokMid, maxLen: 3},
+			{decl: "val2", name: "val2-s4-l5", leaves: leavesVal2, maxSize: 4, toks: tokVal2, maxLen: 5},
 		}
 	}
 	return []langTier{
@@ -82,6 +86,7 @@ func langTiers(c *Ctx) []langTier {
 		{decl: "alt", name: "alt-s3-l2", leaves: leavesAlt, maxSize: 3, toks: tokAlt, maxLen: 2},
 		{decl: "num", name: "num-s2-l3", leaves: leavesNum, maxSize: 2, toks: tokNum, maxLen: 3},
 		{decl: "sub", name: "sub-s2-l3", leaves: leavesFull, maxSize: 2, toks: tokMid, maxLen: 3},
+		{decl: "val2", name: "val2-s3-l5", leaves: leavesVal2, maxSize: 3, toks: tokVal2, maxLen: 5},
 	}
 }
 
@@ -354,6 +359,9 @@ func judgeLang(c *Ctx, d *ref.Decl, spec string, node *ref.Node, argv []string, 
 	}
 	if declName(d) == "sub" {
 		key += " declared on the sub-command `sub`, command line prefixed with `sub`"
+	}
+	if declName(d) == "val2" {
+		key += " declarations: -p/--pp valued, -o/--out valued, -a/--aa flag, X"
 	}
 	if declName(d) == "num" {
 		key += " declarations: -4/--ipv4 flag, -6 flag, -i flag, -n/--nan flag, -f/--nan-ok flag, -p/--port valued, X"
